@@ -274,7 +274,9 @@ def sweep_jobs(pp, quick, rng):
             for amt in sorted(x for x in amounts if x > 0):
                 split = [amt] if rng.random() < 0.7 else [amt // 2, amt - amt // 2]
                 rounds = rng.choice([3, 3, 5])
-                jobs.append({"id": len(jobs), "cmd": "resolve", "cfg": c, "steps": [step(tn, q, split, rounds)], "compare_fresh": False})
+                # (every fourth resolution runs on an instance that was built under another margin and reconfigured)
+                cj = dict(c, construct="reconfigured") if len(jobs) % 4 == 3 else c
+                jobs.append({"id": len(jobs), "cmd": "resolve", "cfg": cj, "steps": [step(tn, q, split, rounds)], "compare_fresh": False})
                 heads.append(case_event([tn], q, split, c, rounds))
         # every template at the edge quantities (nothing sent: optional outputs come out empty and are dropped; one
         # lovelace; a negative amount), against a comfortable and a tight store
